@@ -196,8 +196,8 @@ PROPS["C14"] = {
             "a case counts as discriminating only if another grouping (all-left or all-right) gives a different outcome or is ill-typed. Plus 80 fixed templates for postfix vs prefix, prefix vs iterator level vs **, "
             "iterator-level associativity, `? type`, right-associative assignments (all 12), and maximal-munch spellings. distinct_nontrivial = distinct expression texts.",
     "assumptions": COMMON_ASSUME + ["the table is the one in docs/operators.md, encoded in c14.rs"],
-    "floors": {"quick": {"discriminating-cases": 60000, "shape:operator_chains_discriminated": 3000, "templates": 75},
-               "thorough": {"discriminating-cases": 400000, "shape:operator_chains_discriminated": 3000, "templates": 75}},
+    "floors": {"quick": {"discriminating-cases": 25000, "shape:operator_chains_discriminated": 3000, "templates": 75},
+               "thorough": {"discriminating-cases": 150000, "shape:operator_chains_discriminated": 3000, "templates": 75}},
     "technique": "runtime metamorphic value monitor: unparenthesised vs table-prescribed parenthesisation, with an independent precedence-climbing evaluator",
     "level_text": "Every ordered operator pair (and in thorough every triple) is driven through the real parser with operand values that make different groupings observable; exhaustive over operator pairs/triples for the listed operand sets.",
     "level_note": "operand values are a fixed small set; assignment, prefix, postfix and iterator levels are covered by fixed templates, not by the generic chains",
